@@ -147,12 +147,12 @@ func plans(id, tier string) (Plan, bool) {
 		}}, true
 	case "C14":
 		var jobs []Job
-		for _, sc := range map[bool][]int{false: {0, 1, 2, 3, 4, 7, 8, 9}, true: {0, 1, 2, 3, 4, 5, 6, 7, 8, 9}}[th] {
+		for _, sc := range map[bool][]int{false: {0, 1, 2, 3, 4, 7, 8, 9, 10}, true: {0, 1, 2, 3, 4, 5, 6, 7, 8, 9, 10, 11}}[th] {
 			jobs = append(jobs, Job{Pkg: pkgSC, Harness: "c14_sched", Instr: "v1", Params: fmt.Sprintf("scenario=%d;policy=delay;budget=%d", sc, pick(3, 5)), Shards: pick(2, 8)})
 		}
 		jobs = append(jobs, Job{Pkg: pkgSC, Harness: "c14_sched", Instr: "v1", Params: "scenario=0;precomputed=yes;policy=delay;budget=" + fmt.Sprint(pick(3, 5)), Shards: pick(2, 8)})
 		if th {
-			for _, sc := range []int{0, 1, 2, 3, 4, 7, 9} {
+			for _, sc := range []int{0, 1, 2, 3, 4, 7, 9, 10} {
 				jobs = append(jobs, Job{Pkg: pkgSC, Harness: "c14_sched", Instr: "v1", Params: fmt.Sprintf("scenario=%d;policy=preemption;budget=1;split=10", sc), Shards: 16})
 			}
 			jobs = append(jobs, Job{Pkg: pkgSC, Harness: "c14_sched", Instr: "v1", Params: "scenario=0;policy=delay;budget=2;accessyields=yes", Shards: 8})
@@ -165,6 +165,7 @@ func plans(id, tier string) (Plan, bool) {
 		return Plan{Level: "exploration", Jobs: []Job{
 			{Pkg: pkgExtV1, Harness: "c15_archive", Instr: "v1", Params: "mode=singles", Shards: 16},
 			{Pkg: pkgExtV1, Harness: "c15_archive", Instr: "v1", Params: "mode=tuples", Shards: 16},
+			{Pkg: pkgExtV1, Harness: "c15_history", Instr: "v1", Shards: pick(4, 16)},
 		}}, true
 	case "C16":
 		return Plan{Level: "exploration", Jobs: []Job{
@@ -175,6 +176,7 @@ func plans(id, tier string) (Plan, bool) {
 		return Plan{Level: "exploration", Jobs: []Job{
 			{Pkg: pkgTok, Harness: "c17_tokens", Shards: pick(4, 16)},
 			{Pkg: pkgSS, Harness: "c17_candidates", Shards: 16},
+			{Pkg: pkgSS, Harness: "c17_candidates", Params: "alphabet=ab", Shards: 16},
 		}}, true
 	case "C18":
 		return Plan{Level: "exploration", Jobs: []Job{
